@@ -256,8 +256,13 @@ class UnitEntry(HedSchemaEntry):
         Returns:
             conversion_factor(float or None): Returns the conversion factor or None
         """
-        if HedKey.ConversionFactor in self.attributes:
-            return float(self.derivative_units.get(unit_name))
+        if HedKey.ConversionFactor in self.attributes and unit_name is not None:
+            # Look the unit up the way validation does: exact text first (unit symbols), then ignoring case.
+            factor = self.derivative_units.get(unit_name)
+            if factor is None:
+                factor = self.derivative_units.get(unit_name.casefold())
+            if factor is not None:
+                return float(factor)
 
 
 class HedTagEntry(HedSchemaEntry):
